@@ -108,7 +108,7 @@ fn before_rec(items: &[It], flat: &[(SegBits, usize)], k: isize) -> bool {
     match it {
         It::WordB => k < 0 && before_rec(rest, flat, k),
         It::SyllB => at_bound(k) && before_rec(rest, flat, k),
-        It::Set(v) if v.iter().any(|m| matches!(m, It::WordB | It::SyllB)) => v.iter().any(|m| match m {
+        It::Set(v) => v.iter().any(|m| match m {
             It::WordB => k < 0 && before_rec(rest, flat, k),
             It::SyllB => at_bound(k) && before_rec(rest, flat, k),
             sm => k >= 0 && sm.matches_seg(flat[k as usize].0) && before_rec(rest, flat, k - 1),
@@ -124,7 +124,7 @@ fn after_rec(items: &[It], flat: &[(SegBits, usize)], k: usize) -> bool {
     match it {
         It::WordB => k >= n && after_rec(rest, flat, k),
         It::SyllB => at_bound(k) && after_rec(rest, flat, k),
-        It::Set(v) if v.iter().any(|m| matches!(m, It::WordB | It::SyllB)) => v.iter().any(|m| match m {
+        It::Set(v) => v.iter().any(|m| match m {
             It::WordB => k >= n && after_rec(rest, flat, k),
             It::SyllB => at_bound(k) && after_rec(rest, flat, k),
             sm => k < n && sm.matches_seg(flat[k].0) && after_rec(rest, flat, k + 1),
@@ -178,7 +178,7 @@ fn before_rec_runs(items: &[It], flat: &[Run], k: isize) -> Option<bool> {
     match it {
         It::WordB => then3(Some(k < 0), || before_rec_runs(rest, flat, k)),
         It::SyllB => then3(Some(at_bound(k)), || before_rec_runs(rest, flat, k)),
-        It::Set(v) if v.iter().any(|m| matches!(m, It::WordB | It::SyllB)) => any3(v.iter().map(|m| match m {
+        It::Set(v) => any3(v.iter().map(|m| match m {
             It::WordB => then3(Some(k < 0), || before_rec_runs(rest, flat, k)),
             It::SyllB => then3(Some(at_bound(k)), || before_rec_runs(rest, flat, k)),
             sm => if k < 0 { Some(false) } else { then3(item_on_run(sm, &flat[k as usize]), || before_rec_runs(rest, flat, k - 1)) },
@@ -194,7 +194,7 @@ fn after_rec_runs(items: &[It], flat: &[Run], k: usize) -> Option<bool> {
     match it {
         It::WordB => then3(Some(k >= n), || after_rec_runs(rest, flat, k)),
         It::SyllB => then3(Some(at_bound(k)), || after_rec_runs(rest, flat, k)),
-        It::Set(v) if v.iter().any(|m| matches!(m, It::WordB | It::SyllB)) => any3(v.iter().map(|m| match m {
+        It::Set(v) => any3(v.iter().map(|m| match m {
             It::WordB => then3(Some(k >= n), || after_rec_runs(rest, flat, k)),
             It::SyllB => then3(Some(at_bound(k)), || after_rec_runs(rest, flat, k)),
             sm => if k >= n { Some(false) } else { then3(item_on_run(sm, &flat[k]), || after_rec_runs(rest, flat, k + 1)) },
